@@ -14,6 +14,10 @@
 extern "C" {
 #endif
 struct vf_typeinfo { const struct vf_typeinfo* base; int id; };
+#ifndef __CPROVER__
+#define __CPROVER_atomic_begin() ((void)0)   /* native builds of the generated C are single threaded */
+#define __CPROVER_atomic_end() ((void)0)
+#endif
 extern void* vf_exc;                       /* pending exception object, 0 if none */
 extern const struct vf_typeinfo* vf_exc_ti;
 extern int vf_exc_caughtall;
